@@ -580,6 +580,8 @@ class Ctx:
             if any((not st.compare(i, m)) or (not st.monitor(c, i, m)) for c, i, m in zip(scout, si, sm)):
                 own = scout[len(corpus):]
                 self.cov.setdefault("reduced_after_violation", []).append(st.name + " (scout)")
+        if len(own) != len(st.cases):
+            st.cases = own      # callers index the results by position in st.cases
         cases = corpus + own
         n_corpus = len(cases) - len(own)
         t0 = time.time()
@@ -764,12 +766,23 @@ def run_property(plugin, tier, seed):
         ctx.notes.append("model driver not built: %s" % str(e)[:300])
     # 3. correspondence + monitor
     if ctx.model_bin or not meta.get("driver"):
-        if hasattr(plugin, "custom"):
-            plugin.custom(ctx)
-        else:
-            # small streams first: if one of them settles the verdict, the large ones run on a sample (see run_stream)
-            for st in sorted(plugin.streams(ctx), key=lambda x: len(x.cases)):
-                ctx.run_stream(st)
+        try:
+            if hasattr(plugin, "custom"):
+                plugin.custom(ctx)
+            else:
+                # small streams first: if one of them settles the verdict, the large ones run on a sample (see run_stream)
+                for st in sorted(plugin.streams(ctx), key=lambda x: len(x.cases)):
+                    ctx.run_stream(st)
+        except Exception:  # noqa: BLE001
+            # The comparison itself could not be completed (output of a shape the parsers do not know, a helper that fails on it):
+            # the property is then not shown to hold — a violation without a failing input unless one was found before
+            import traceback
+            tb = traceback.format_exc()
+            sys.stderr.write(tb)
+            ctx.notes.append("correspondence run aborted: " + tb.strip().split("\n")[-1][:300])
+            if not ctx.violations:
+                ctx.report("correspondence-broken",
+                           {"what": "correspondence %s could not be completed: %s" % (ctx.pid, tb[-3000:])}, nfi=True)
     # 4. a broken proof obligation with no failing input found
     if proof_broken and not any(k == "property-fails" for k, _, _, _ in ctx.violations):
         ctx.report("proof-broken", {"what": "proof obligations of %s no longer check" % ctx.pid,
